@@ -25,8 +25,8 @@ from ..model import AnalysisError, Unknown, dotted, src
 from . import c12, c13
 from .c10 import unit_of
 
-TECHNIQUE = "QFREE-emission/deactivation pairing, typestate (activate/deactivate) analysis of internally created handles with escape through returns, belief rule on the relocation peephole; abstract interpretation of small functions over an enumerated finite domain by the checker's own AST interpreter (static analysis)"
-ENGINES = ["model", "flow", "emit", "circuit"]
+TECHNIQUE = "abstract execution of bounded host programs end to end (DebugConnection, Builder, message bytes, QNodeController, Executor driven by the checker's AST interpreter; link layer modelled); QFREE-emission/deactivation pairing, typestate analysis of internally created handles, belief rule on the relocation peephole (static analysis)"
+ENGINES = ["model", "flow", "emit", "circuit", "session"]
 EXPLANATION = (
     "Over sdk/qubit.py, sdk/builder.py, sdk/epr_socket.py, sdk/memmgr.py: every ICmd(QFREE) construction is located; a builder "
     "primitive that frees the id it is given is followed to its callers, each of which must deactivate the handle whose qubit_id it "
@@ -38,11 +38,10 @@ EXPLANATION = (
     ' C09.I: an explicit virtual id given to a new handle is provably unused. C09.Z: no truthiness test on an int-typed value (qubit id 0, physical address 0).'
     ' C09.M executes get_new_qubit_address abstractly for seven sets of handle ids, and again after a live handle was renamed to the id just handed out (what NV relocation does).'
     " C09.I / C09.F execute Qubit.__init__ and the active setter against the repository's own Builder and MemoryManager objects for six combinations of live ids and explicit / automatic id."
+    " C09.H: bounded host programs (create, gate, in-place / destructive measurement, free, flush; create_keep / recv_keep of one and two pairs) run end to end - DebugConnection, Builder, message bytes, deserialize_host_msg, QNodeController, Executor, link layer modelled - on generic hardware, NV hardware and NV hardware with the NV transpiler: the SDK accepts the program, no subroutine faults, live handles have distinct ids, after every flush the host's active qubits are the controller's allocated ones. The structural scan of explicit virtual ids is retired in its favour."
 )
 LEVEL_TEXT = (
-    "Static analysis, partial: the structural agreement of SDK-side handle state with emitted qalloc/qfree at every emission and "
-    "creation site. Not decided: absence of allocation faults over all histories; the one-fewer budget on NV; handles returned to "
-    "the user for sequentially generated pairs."
+    "Abstract execution of the property as stated on bounded host histories (depth 3 quick, 4-5 thorough, plus entanglement histories) in three hardware settings; static rules for QFREE pairing, handle typestate, the relocation peephole and the controller's guards. Not decided: longer histories, budgets above three, contexts and post routines inside histories."
 )
 LEVEL_NOTE = "handles returned by a public API are the user's responsibility; exceptional paths not modelled"
 ASSUMPTIONS = [LEVEL_NOTE]
